@@ -101,6 +101,7 @@ type Worker struct {
 	cur       atomic.Int64
 	curStart  atomic.Int64
 	notes     map[string]any
+	local     map[string]any
 }
 
 func newWorker(id int) *Worker {
@@ -818,3 +819,16 @@ func (w *Worker) Violations() []Violation { return w.viol }
 
 // Counter returns a counter value.
 func (w *Worker) Counter(name string) int64 { return w.counters[name] }
+
+// Local returns a per-worker cached value (created on first use).
+func (w *Worker) Local(key string, mk func() any) any {
+	if w.local == nil {
+		w.local = map[string]any{}
+	}
+	v, ok := w.local[key]
+	if !ok {
+		v = mk()
+		w.local[key] = v
+	}
+	return v
+}
